@@ -119,6 +119,7 @@ func (d *VerifDumper) node(n *mastNode) {
 		fmt.Fprintf(&d.sb, " g%d,%d,%d", len(n.Key), len(n.Value), len(n.Link))
 		fmt.Fprintf(&d.geo, "%d:%s;", id, geo)
 	}
+	verifUnknownFields(&d.sb, reflect.ValueOf(n).Elem(), verifKnownNode)
 	d.sb.WriteString(" L[")
 	for i, l := range n.Link {
 		if i > 0 {
@@ -137,6 +138,7 @@ func (d *VerifDumper) Tree(m *Mast) {
 	}
 	fmt.Fprintf(&d.sb, "T(h=%d n=%d g=%d s=%d bf=%d f=%s c=%v root=", m.height, m.size, m.growAfterSize, m.shrinkBelowSize, m.branchFactor, m.nodeFormat, m.nodeCache != nil)
 	d.link(m.root)
+	verifUnknownFields(&d.sb, reflect.ValueOf(m).Elem(), verifKnownMast)
 	d.sb.WriteString(");")
 }
 
@@ -147,6 +149,7 @@ func (d *VerifDumper) Cursor(c *Cursor) {
 		return
 	}
 	d.sb.WriteString("C(")
+	verifUnknownFields(&d.sb, reflect.ValueOf(c).Elem(), verifKnownCursor)
 	d.Tree(c.m)
 	for _, pe := range c.path {
 		d.node(pe.node)
@@ -331,5 +334,88 @@ func verifRenderValue(sb *strings.Builder, v reflect.Value) {
 		} else {
 			fmt.Fprintf(sb, "%v", v)
 		}
+	}
+}
+
+// Fields of the library's structs that the renderers above cover (or that hold configuration, which
+// is the same for every state of one exploration). Any OTHER field - one that a change to the library
+// added - is rendered generically below, so that state kept in it (a remembered list, a flag, a scratch
+// buffer's length) keeps two otherwise equal states apart instead of being merged away unseen.
+var (
+	verifKnownMast = map[string]bool{"root": true, "zeroKey": true, "zeroValue": true, "keyOrder": true, "keyLayer": true, "unmarshalerUsesRegisteredTypes": true,
+		"marshal": true, "unmarshal": true, "branchFactor": true, "height": true, "size": true, "growAfterSize": true, "shrinkBelowSize": true, "persist": true,
+		"debug": true, "nodeCache": true, "nodeFormat": true}
+	verifKnownNode   = map[string]bool{"Node": true, "dirty": true, "shared": true, "expected": true, "source": true}
+	verifKnownCursor = map[string]bool{"path": true, "m": true}
+)
+
+func verifUnknownFields(sb *strings.Builder, v reflect.Value, known map[string]bool) {
+	t := v.Type()
+	for i := 0; i < t.NumField(); i++ {
+		if known[t.Field(i).Name] {
+			continue
+		}
+		sb.WriteString(" +")
+		sb.WriteString(t.Field(i).Name)
+		sb.WriteString("=")
+		verifShape(sb, v.Field(i), 0)
+	}
+}
+
+// verifShape renders a value of unknown meaning by what can be read without interpreting it: scalars by
+// value, slices / maps / channels by length (and the shapes of up to 8 elements), pointers and interfaces by
+// nil-ness and the shape of what they hold (to depth 3), functions by nil-ness. No addresses.
+func verifShape(sb *strings.Builder, v reflect.Value, depth int) {
+	switch v.Kind() {
+	case reflect.Bool:
+		fmt.Fprint(sb, v.Bool())
+	case reflect.Int, reflect.Int8, reflect.Int16, reflect.Int32, reflect.Int64:
+		fmt.Fprint(sb, v.Int())
+	case reflect.Uint, reflect.Uint8, reflect.Uint16, reflect.Uint32, reflect.Uint64, reflect.Uintptr:
+		fmt.Fprint(sb, v.Uint())
+	case reflect.Float32, reflect.Float64:
+		fmt.Fprint(sb, v.Float())
+	case reflect.String:
+		fmt.Fprintf(sb, "%q", v.String())
+	case reflect.Slice, reflect.Array, reflect.Map, reflect.Chan:
+		if v.Kind() != reflect.Array && v.IsNil() {
+			sb.WriteString("nil")
+			return
+		}
+		fmt.Fprintf(sb, "len%d", v.Len())
+		if depth < 3 && (v.Kind() == reflect.Slice || v.Kind() == reflect.Array) {
+			sb.WriteString("[")
+			for i := 0; i < v.Len() && i < 8; i++ {
+				verifShape(sb, v.Index(i), depth+1)
+				sb.WriteString(",")
+			}
+			sb.WriteString("]")
+		}
+	case reflect.Ptr, reflect.Interface:
+		if v.IsNil() {
+			sb.WriteString("nil")
+			return
+		}
+		sb.WriteString("&")
+		if depth < 3 {
+			verifShape(sb, v.Elem(), depth+1)
+		}
+	case reflect.Func:
+		if v.IsNil() {
+			sb.WriteString("nilfunc")
+		} else {
+			sb.WriteString("func")
+		}
+	case reflect.Struct:
+		sb.WriteString("{")
+		if depth < 3 {
+			for i := 0; i < v.NumField(); i++ {
+				verifShape(sb, v.Field(i), depth+1)
+				sb.WriteString(";")
+			}
+		}
+		sb.WriteString("}")
+	default:
+		sb.WriteString("?")
 	}
 }
